@@ -84,6 +84,7 @@ StepSet0(st, e) ==
          THEN {CloseTau([st EXCEPT !.lstn[e.node] = 1])}   \* armed with (or just before) the host's first activation
          ELSE Matching(st, Lab("listening", e.node, 0))
     [] e.ev = "deliver"   -> {CloseTau(Deliver(st, e.kind, e.node))}
+    [] e.ev = "deliverx"  -> {CloseTau(DeliverRacy(st, e.kind, e.node))}
     [] e.ev = "delivered" -> {CloseTau(Delivered(st, e.kind, e.node))}
     \* an observation at a node where the game has no listener is not an effect
     \* on the instance (e.g. a withdrawn alternative still reporting): ignored
@@ -98,7 +99,27 @@ StepSet0(st, e) ==
     [] e.ev = "timeout" -> {st}
     [] OTHER -> {}
 
-StepSet(st, e) == UNION {StepSet0(x, e) : x \in Expand(st)}
+(* C07: after the context has been cancelled the instance winds down.  What  *)
+(* the property demands of everything observed from then on:                 *)
+(*   - a task request may still come through only if it carries the already  *)
+(*     cancelled context (req.ok = FALSE);                                   *)
+(*   - WaitUntilComplete returns promptly (latency e.n in ms);               *)
+(*   - the tracers terminate, the subscriber channel is closed;              *)
+(*   - the census of goroutines the instance started is empty.               *)
+PromptMs == 2000
+PostCancel(st, e) ==
+  CASE e.ev = "req"        -> IF e.ok THEN {} ELSE {st}
+    [] e.ev = "waitret"    -> IF e.n <= PromptMs THEN {st} ELSE {}
+    [] e.ev = "tracerdone" -> IF e.ok THEN {st} ELSE {}
+    [] e.ev = "subclosed"  -> IF e.ok THEN {st} ELSE {}
+    [] e.ev = "census"     -> IF e.n = 0 THEN {st} ELSE {}
+    [] e.ev = "blocked"    -> {}
+    [] OTHER -> {st}
+
+StepSet(st, e) ==
+  IF st.cancelled THEN PostCancel(st, e)
+  ELSE IF e.ev = "cancel" THEN {[st EXCEPT !.cancelled = TRUE]}
+  ELSE UNION {StepSet0(x, e) : x \in Expand(st)}
 
 TraceInit == l = 1 /\ ok = FALSE /\ s = InitState(1)
 
